@@ -20,7 +20,7 @@ class Prop(PropBase):
     theorems = ["Pb.C13." + t for t in ("C13_unitary_model", "C13_inverse_model", "C13_basis_independent_model",
                                         "C13_stokes_model", "C13_component_index", "C13_inverse", "C13_unitary",
                                         "C13_basis_independent", "C13_polarised", "C13_source_formulas")]
-    trusted_base = ["PbModel/Pol.lean (hand model); Gen/Classes.lean stokes ids (translator)"]
+    trusted_base = ["pbverif/extract.py: symbolic evaluation of the method bodies into PbModel/Gen/Pol.lean (trusted to render the source expressions faithfully; tied to the hand model by the C13_source_* theorem)", "PbModel/Pol.lean (hand model); Gen/Classes.lean stokes ids (translator)"]
     assumptions = []
     rule = ("DualPolarizationSignal with 1-3 channels, optional trailing dims, 2-6 samples whose components are random dyadic "
             "rationals k/8, |k|<=64 (incl. zeros and pure real/imaginary), both pol_types, complex64/128, NumPy/Dask; every sample "
